@@ -141,6 +141,16 @@ func NewFormatDecoder(r io.Reader) FormatDecoder {
 	return FormatDecoder{r: reader{r}}
 }
 
+// body reads the remainder of a variable-size element after the first n bytes
+// of it (header and fixed fields) were consumed. The remainder has to be at
+// least min bytes long.
+func (d *FormatDecoder) body(hdr FormatHeader, n, min uint64) ([]byte, error) {
+	if hdr.Size < n+min {
+		return nil, InvalidFormat{"element size too small"}
+	}
+	return d.r.ReadN(hdr.Size - n)
+}
+
 // Next returns the next format element from the stream. If an element
 // contains a reader, that reader should be used before any subsequent calls as
 // it'll be invalidated then. Returns nil when the end is reached.
@@ -195,8 +205,8 @@ func (d *FormatDecoder) Next() (interface{}, error) {
 		return e, nil
 
 	case CaFormatUser:
-		b := make([]byte, hdr.Size-16)
-		if _, err = io.ReadFull(d.r, b); err != nil {
+		b, err := d.body(hdr, 16, 1)
+		if err != nil {
 			return nil, err
 		}
 		// Strip off the 0 byte
@@ -204,8 +214,8 @@ func (d *FormatDecoder) Next() (interface{}, error) {
 		return FormatUser{FormatHeader: hdr, Name: string(b)}, nil
 
 	case CaFormatGroup:
-		b := make([]byte, hdr.Size-16)
-		if _, err = io.ReadFull(d.r, b); err != nil {
+		b, err := d.body(hdr, 16, 1)
+		if err != nil {
 			return nil, err
 		}
 		// Strip off the 0 byte
@@ -213,8 +223,8 @@ func (d *FormatDecoder) Next() (interface{}, error) {
 		return FormatGroup{FormatHeader: hdr, Name: string(b)}, nil
 
 	case CaFormatXAttr:
-		b := make([]byte, hdr.Size-16)
-		if _, err = io.ReadFull(d.r, b); err != nil {
+		b, err := d.body(hdr, 16, 1)
+		if err != nil {
 			return nil, err
 		}
 		// Strip off the 0 byte
@@ -222,8 +232,8 @@ func (d *FormatDecoder) Next() (interface{}, error) {
 		return FormatXAttr{FormatHeader: hdr, NameAndValue: string(b)}, nil
 
 	case CaFormatSELinux:
-		b := make([]byte, hdr.Size-16)
-		if _, err = io.ReadFull(d.r, b); err != nil {
+		b, err := d.body(hdr, 16, 1)
+		if err != nil {
 			return nil, err
 		}
 		// Strip off the 0 byte
@@ -231,8 +241,8 @@ func (d *FormatDecoder) Next() (interface{}, error) {
 		return FormatSELinux{FormatHeader: hdr, Label: string(b)}, nil
 
 	case CaFormatFilename:
-		b := make([]byte, hdr.Size-16)
-		if _, err = io.ReadFull(d.r, b); err != nil {
+		b, err := d.body(hdr, 16, 1)
+		if err != nil {
 			return nil, err
 		}
 		// Strip off the 0 byte
@@ -240,8 +250,8 @@ func (d *FormatDecoder) Next() (interface{}, error) {
 		return FormatFilename{FormatHeader: hdr, Name: string(b)}, nil
 
 	case CaFormatSymlink:
-		b := make([]byte, hdr.Size-16)
-		if _, err = io.ReadFull(d.r, b); err != nil {
+		b, err := d.body(hdr, 16, 1)
+		if err != nil {
 			return nil, err
 		}
 		// Strip off the 0 byte
@@ -264,6 +274,9 @@ func (d *FormatDecoder) Next() (interface{}, error) {
 		return e, nil
 
 	case CaFormatPayload:
+		if hdr.Size < 16 || hdr.Size-16 > math.MaxInt64 {
+			return nil, InvalidFormat{"invalid payload size"}
+		}
 		size := hdr.Size - 16
 		r := io.LimitReader(d.r, int64(size))
 		// Record the reader to be read fully on the next iteration if the caller
@@ -272,8 +285,8 @@ func (d *FormatDecoder) Next() (interface{}, error) {
 		return FormatPayload{FormatHeader: hdr, Data: r}, nil
 
 	case CaFormatFCaps:
-		b := make([]byte, hdr.Size-16)
-		if _, err = io.ReadFull(d.r, b); err != nil {
+		b, err := d.body(hdr, 16, 0)
+		if err != nil {
 			return nil, err
 		}
 		return FormatFCaps{FormatHeader: hdr, Data: b}, nil
@@ -288,8 +301,8 @@ func (d *FormatDecoder) Next() (interface{}, error) {
 		if err != nil {
 			return nil, err
 		}
-		b := make([]byte, hdr.Size-32)
-		if _, err = io.ReadFull(d.r, b); err != nil {
+		b, err := d.body(hdr, 32, 1)
+		if err != nil {
 			return nil, err
 		}
 		// Strip off the 0 byte
@@ -307,8 +320,8 @@ func (d *FormatDecoder) Next() (interface{}, error) {
 		if err != nil {
 			return nil, err
 		}
-		b := make([]byte, hdr.Size-32)
-		if _, err = io.ReadFull(d.r, b); err != nil {
+		b, err := d.body(hdr, 32, 1)
+		if err != nil {
 			return nil, err
 		}
 		// Strip off the 0 byte
@@ -345,28 +358,33 @@ func (d *FormatDecoder) Next() (interface{}, error) {
 		return e, nil
 
 	case CaFormatGoodbye:
+		if hdr.Size < 16+24 || (hdr.Size-16)%24 != 0 {
+			return nil, InvalidFormat{"invalid goodbye size"}
+		}
 		n := (hdr.Size - 16) / 24
-		items := make([]FormatGoodbyeItem, n)
-		e := FormatGoodbye{FormatHeader: hdr, Items: items}
+		// n is taken from the input, grow the list as items are actually read
+		var items []FormatGoodbyeItem
 		for i := uint64(0); i < n; i++ {
-			items[i].Offset, err = d.r.ReadUint64()
+			var item FormatGoodbyeItem
+			item.Offset, err = d.r.ReadUint64()
 			if err != nil {
 				return nil, err
 			}
-			items[i].Size, err = d.r.ReadUint64()
+			item.Size, err = d.r.ReadUint64()
 			if err != nil {
 				return nil, err
 			}
-			items[i].Hash, err = d.r.ReadUint64()
+			item.Hash, err = d.r.ReadUint64()
 			if err != nil {
 				return nil, err
 			}
+			items = append(items, item)
 		}
 		// Ensure we have the tail marker in the last item
 		if len(items) < 1 || items[len(items)-1].Hash != CaFormatGoodbyeTailMarker {
 			return nil, InvalidFormat{"tail marker not found"}
 		}
-		return e, nil
+		return FormatGoodbye{FormatHeader: hdr, Items: items}, nil
 
 	case CaFormatIndex:
 		e := FormatIndex{FormatHeader: hdr}
